@@ -312,6 +312,26 @@ func (p PeerSpec) CR() v1beta2.BGPPeer {
 	return cr
 }
 
+// WantPassword is the password the peer's session must be created with.
+func (p PeerSpec) WantPassword() string {
+	if p.Secret != "" {
+		return "sec-" + p.Name
+	}
+	return p.Password
+}
+
+// SecretCRs returns the Secret the peer references (in MetalLB's namespace) followed by a decoy of the same
+// name in another namespace, which MetalLB must never look at.
+func (p PeerSpec) SecretCRs() []*corev1.Secret {
+	if p.Secret == "" {
+		return nil
+	}
+	return []*corev1.Secret{
+		{ObjectMeta: metav1.ObjectMeta{Name: p.Secret, Namespace: MetalNS}, Type: corev1.SecretTypeBasicAuth, Data: map[string][]byte{"password": []byte(p.WantPassword())}},
+		{ObjectMeta: metav1.ObjectMeta{Name: p.Secret, Namespace: "tenant"}, Type: corev1.SecretTypeBasicAuth, Data: map[string][]byte{"password": []byte("decoy-" + p.Name)}},
+	}
+}
+
 type CommunitySpec struct {
 	Name    string      `json:"name"`
 	Aliases [][2]string `json:"aliases"` // name, value
